@@ -380,6 +380,8 @@ where
     LM: MatchLiteral,
     <T as FromStr>::Err: Debug,
 {
+    #[cfg(exmex_verif)]
+    crate::verif::emit(|| format!("{{\"ev\":\"partial_deepex\",\"var\":{var_idx}}}"));
     let partial_derivative_ops = make_partial_derivative_ops::<T, OF, LM>();
     let inner = partial_derivative_inner(
         var_idx,
